@@ -167,3 +167,40 @@ def ast_roles(ast):
         if fn(ast):
             out.add(name)
     return out
+
+
+def separator_class(ast):
+    """Some character class lists the separator."""
+    return ast is not None and any(
+        it[0] == "class" and any((a[0] == "c" and a[1] == "/") or (a[0] == "r" and a[1] <= "/" <= a[2])
+                                 for a in it[2]) for it in gen.walk_items(ast))
+
+
+def flag_at_partition_cut(ast):
+    """A flag is written (at top level) before the first variant token, i.e. at or before the
+    point where partition cuts the expression text."""
+    if not ast:
+        return False
+    ci = False
+    seen_flag = False
+    for it in ast:
+        if it[0] == "flag":
+            seen_flag = True
+            ci = it[2]
+            continue
+        variant = it[0] not in ("lit", "sep") or (it[0] == "lit" and ci and any(c.lower() != c.upper() for c in it[1]))
+        if variant:
+            return seen_flag
+    return seen_flag
+
+
+ROOTED_TREE_PREFIXES = [("(?s)^([/].*[/]?)", "(?s)^([/](?:.*[/])?)"), ("^([/].*[/]?)", "^([/](?:.*[/])?)")]
+
+
+def patch_rooted_leading_tree(pattern):
+    """Term patch for KF-rooted-tree-partial-component: the encoding a rooted leading tree wildcard
+    would have if it matched whole components only. None if the pattern has no such piece."""
+    for old, new in ROOTED_TREE_PREFIXES:
+        if pattern.startswith(old):
+            return new + pattern[len(old):]
+    return None
